@@ -15,7 +15,11 @@ C08 — same seed, same run.
 * `Configuration::optimize_with` (src/configuration.rs): a default generator is inserted iff the
   user's initialiser did not insert one; the run draws from the generator in the state.
 * `par_experiment` (src/experiments.rs): jobs = runs × problems, executed in any order; job (r, p)
-  is `optimize_with` with `Random::new(r)`, its log goes to the file of (p, r).
+  is `optimize_with` with `Random::new(r)`, its log goes to the file of (p, r). The job's initialiser
+  is `insert(Random::new(r)); setup(state)` (`jobInit`): the user's `setup` comes last.
+* `Random` as a wrapper of a seedable backend (`Backend`, `Random.withRng`, `Random.draw`,
+  `Random.child`, `Random.descend`) and the transparent counter backend `ctr`, which the harness
+  implements with the same definition so that the model predicts `Random::with_rng::<Ctr>(s)` itself.
 -/
 import MahfModel.Model.Sexp
 namespace MahfModel.Determinism
@@ -150,17 +154,20 @@ def Rng.next (r : Rng) : Nat × Rng := (r.stream r.pos, { r with pos := r.pos + 
 /-- `(constructor)(seed)`: `ctor seed` is the stream of a generator seeded with `seed`. -/
 def mkRng (ctor : Nat → Nat → Nat) (seed : Nat) : Rng := { stream := ctor seed, pos := 0 }
 
-/-- `iter_children().take(k)`: each child is constructed from the parent's next word. -/
-def children (ctor : Nat → Nat → Nat) : Nat → Rng → List Rng × Rng
+/-- `iter_children().take(k)`: each child is constructed from a seed derived (`d`) from the parent's
+next word. In the code as it is `d` is the identity (`let seed = rng.next_u64(); constructor(seed)`);
+the property does not depend on which function it is, so the theorems quantify over `d` and the tie
+reads the child's seed off `config().seed` (witness) instead of demanding `d = id`. -/
+def children (ctor : Nat → Nat → Nat) (d : Nat → Nat) : Nat → Rng → List Rng × Rng
   | 0, r => ([], r)
   | k + 1, r =>
-    let (seed, r1) := r.next
-    let (cs, r2) := children ctor k r1
-    (mkRng ctor seed :: cs, r2)
+    let (w, r1) := r.next
+    let (cs, r2) := children ctor d k r1
+    (mkRng ctor (d w) :: cs, r2)
 
-def childSeeds : Nat → Rng → List Nat
+def childSeeds (d : Nat → Nat) : Nat → Rng → List Nat
   | 0, _ => []
-  | k + 1, r => r.next.1 :: childSeeds k r.next.2
+  | k + 1, r => d r.next.1 :: childSeeds d k r.next.2
 
 /-! ### `optimize_with` -/
 
@@ -196,6 +203,136 @@ def experiment {R : Type} (single : Nat → Nat → R) (runs nprob : Nat) (sched
 def fileOf {R : Type} (files : List ((Nat × Nat) × R)) (p r : Nat) : Option R :=
   (files.find? fun x => decide (x.1 = (p, r))).map (·.2)
 
+/-! ### `Random` as a wrapper of a seedable backend (src/state/random.rs)
+
+`Random { config, constructor, inner }`: `with_rng::<RNG>(seed)` stores the seed in `config`, keeps
+`with_rng::<RNG>` as the constructor of children, and seeds the backend with **that** seed
+(`RNG::seed_from_u64(seed)`); the four `RngCore` methods delegate to `inner`. -/
+
+/-- A seedable backend (`RngCore + SeedableRng`). `fill n` is `fill_bytes` / `try_fill_bytes` on a
+buffer of `n` bytes. -/
+structure Backend where
+  σ : Type
+  seedFrom : Nat → σ
+  nextU64 : σ → Nat × σ
+  nextU32 : σ → Nat × σ
+  fill : Nat → σ → List Nat × σ
+
+inductive Draw where
+  | u64 | u32 | fill (n : Nat) | tryFill (n : Nat)
+  deriving Repr, DecidableEq
+
+def Backend.draw (B : Backend) : Draw → B.σ → List Nat × B.σ
+  | .u64, s => ([(B.nextU64 s).1], (B.nextU64 s).2)
+  | .u32, s => ([(B.nextU32 s).1], (B.nextU32 s).2)
+  | .fill n, s => B.fill n s
+  | .tryFill n, s => B.fill n s
+
+/-- What a draw script yields on a backend state. -/
+def Backend.run (B : Backend) : List Draw → B.σ → List (List Nat)
+  | [], _ => []
+  | d :: ds, s => (B.draw d s).1 :: Backend.run B ds (B.draw d s).2
+
+/-- The `i`-th `next_u64` word of a backend state. -/
+def Backend.nthWord (B : Backend) : Nat → B.σ → Nat
+  | 0, s => (B.nextU64 s).1
+  | i + 1, s => Backend.nthWord B i (B.nextU64 s).2
+
+/-- `Random`; the backend type (and with it the `constructor` field, always `with_rng::<RNG>` of
+the same `RNG`) is the index `B`. -/
+structure Random (B : Backend) where
+  cfgSeed : Nat
+  inner : B.σ
+
+/-- `Random::with_rng::<RNG>(seed)` -/
+def Random.withRng (B : Backend) (seed : Nat) : Random B := { cfgSeed := seed, inner := B.seedFrom seed }
+
+/-- `impl RngCore for Random`: every method delegates to `inner`. -/
+def Random.draw {B : Backend} (d : Draw) (r : Random B) : List Nat × Random B :=
+  ((B.draw d r.inner).1, { r with inner := (B.draw d r.inner).2 })
+
+def Random.run {B : Backend} : List Draw → Random B → List (List Nat)
+  | [], _ => []
+  | d :: ds, r => (r.draw d).1 :: Random.run ds (r.draw d).2
+
+/-- `RandomIter::next`: `let seed = rng.next_u64(); (rng.constructor)(seed)` → (child, parent afterwards);
+`d` = how the child's seed is derived from the word drawn (identity in the code as it is). -/
+def Random.child {B : Backend} (d : Nat → Nat) (r : Random B) : Random B × Random B :=
+  (Random.withRng B (d (B.nextU64 r.inner).1), { r with inner := (B.nextU64 r.inner).2 })
+
+/-- `iter_children().take(i + 1).last()` -/
+def Random.nthChild {B : Backend} (d : Nat → Nat) : Nat → Random B → Random B
+  | 0, r => (r.child d).1
+  | i + 1, r => Random.nthChild d i (r.child d).2
+
+/-- The descendant reached by taking child number `i₁`, of that one child number `i₂`, … -/
+def Random.descend {B : Backend} (d : Nat → Nat) : List Nat → Random B → Random B
+  | [], r => r
+  | i :: path, r => Random.descend d path (Random.nthChild d i r)
+
+/-- `config().seed` of every generator on the way down (without the root). -/
+def Random.descendSeeds {B : Backend} (d : Nat → Nat) : List Nat → Random B → List Nat
+  | [], _ => []
+  | i :: path, r => (Random.nthChild d i r).cfgSeed :: Random.descendSeeds d path (Random.nthChild d i r)
+
+/-- The seed of the descendant along `path`, computed on the backend alone. -/
+def Backend.descendSeed (B : Backend) (d : Nat → Nat) : List Nat → Nat → Nat
+  | [], seed => seed
+  | i :: path, seed => Backend.descendSeed B d path (d (B.nthWord i (B.seedFrom seed)))
+
+/-- A transparent backend: the stream of seed `s` is `s, s+1, s+2, …` (mod 2^64); `next_u32` is the
+low half of the next word; `fill` writes the little-endian bytes of successive words. Implemented
+with the same definition in the harness (`Ctr`), so `Random::with_rng::<Ctr>(s)` can be predicted
+completely — in particular its first word shows which seed really reached the backend. -/
+def leBytes (w : Nat) : List Nat := (List.range 8).map fun i => (w / 256 ^ i) % 256
+
+def ctrFill : Nat → Nat → Nat → List Nat × Nat
+  | 0, _, c => ([], c)
+  | fuel + 1, n, c =>
+    if n = 0 then ([], c)
+    else
+      let r := ctrFill fuel (n - 8) ((c + 1) % 2 ^ 64)
+      ((leBytes c).take n ++ r.1, r.2)
+
+def ctr : Backend where
+  σ := Nat
+  seedFrom s := s % 2 ^ 64
+  nextU64 c := (c, (c + 1) % 2 ^ 64)
+  nextU32 c := (c % 2 ^ 32, (c + 1) % 2 ^ 64)
+  fill n c := ctrFill (n + 1) n c
+
+/-! ### `par_experiment` with the user's `setup` closure -/
+
+/-- `optimize_with` over an arbitrary generator type: the user's initialiser sees an empty slot; a
+default generator is inserted iff none is present afterwards. -/
+def optimizeWithG {G R : Type} (init : Option G → Except Unit (Option G)) (dflt : G) (run : G → R) : Except Unit R :=
+  match init none with
+  | .error e => .error e
+  | .ok none => .ok (run dflt)
+  | .ok (some g) => .ok (run g)
+
+/-- The initialiser `par_experiment` hands to `optimize_with` for run number `run`:
+`state.insert(Random::new(run)); setup(state)` — the user's `setup` comes LAST, so whatever it
+inserts overwrites the run-seeded generator. -/
+def jobInit {G : Type} (newG : Nat → G) (setup : Option G → Except Unit (Option G)) (run : Nat) :
+    Option G → Except Unit (Option G) :=
+  fun _ => setup (some (newG run))
+
+/-- The generator job `run` draws from. -/
+def jobGenerator {G : Type} (newG : Nat → G) (setup : Option G → Except Unit (Option G)) (dflt : G) (run : Nat) :
+    Except Unit G :=
+  optimizeWithG (jobInit newG setup run) dflt id
+
+/-- Identity of a generator as observable from outside: backend (0 = the default ChaCha12) and seed. -/
+structure GenId where
+  backend : Nat
+  seed : Nat
+  deriving Repr, DecidableEq
+
+/-- `setup` closures used on the wire: `keep` does not touch the generator, `supply g` inserts `g`. -/
+def setupKeep : Option GenId → Except Unit (Option GenId) := fun s => .ok s
+def setupSupply (g : GenId) : Option GenId → Except Unit (Option GenId) := fun _ => .ok (some g)
+
 /-! ### Wire format -/
 open MahfModel Sexp
 
@@ -215,20 +352,23 @@ def digestsEqual (implOut : Sexp) : Option (Sexp × Bool) :=
     pure (want, Sexp.beq want implOut)
   | _ => none
 
-/-- `(children (words w…) (seeds s…) (a d…) (b d…) (c d…))`: child seeds are the parent's successive
-words (`words` is the parent stream as observed on an identically seeded twin); deriving twice gives
-the same child streams (`a`, `b`: digests of the children's first 64 words), and a child's stream is
-the stream of a generator constructed directly from that word (`c`). -/
+/-- `(children (parent s) (words w…) (seeds s…) (a d…) (b d…) (c d…))`: `seeds` = the children's
+`config().seed` (the WITNESS: which seed each child was constructed from; in the code as it is these are
+the parent's successive words `words`, which is not demanded); deriving twice gives the same child
+streams (`a`, `b`: digests of the children's first 64 words), and every child IS the pristine generator
+with the seed it reports (`c`: digests of the first 64 words of the bare backend seeded with that seed
+through rand's `seed_from_u64`). Legal witness: sibling seeds pairwise different and different from the
+parent's seed. -/
 def predictChildren (implOut : Sexp) : Option (Sexp × Bool) :=
   match implOut with
-  | .list [.atom "children", .list (.atom "words" :: ws), .list (.atom "seeds" :: _), .list (.atom "a" :: da),
-           .list (.atom "b" :: _), .list (.atom "c" :: _)] => do
-    let w ← ws.mapM nat?
-    let r : Rng := { stream := fun i => w.getD i 0, pos := 0 }
-    let seeds := childSeeds w.length r
-    let model := Sexp.list [.atom "children", .list (.atom "words" :: ws), .list (.atom "seeds" :: seeds.map ofNat),
-      .list (.atom "a" :: da), .list (.atom "b" :: da), .list (.atom "c" :: da)]
-    pure (model, Sexp.beq model implOut)
+  | .list [.atom "children", .list [.atom "parent", ps], .list (.atom "words" :: ws), .list (.atom "seeds" :: ss), .list (.atom "a" :: _),
+           .list (.atom "b" :: _), .list (.atom "c" :: dc)] => do
+    let p ← nat? ps
+    let seeds ← ss.mapM nat?
+    let legal := decide (seeds.Nodup) && !seeds.contains p && seeds.length == dc.length
+    let model := Sexp.list [.atom "children", .list [.atom "parent", ps], .list (.atom "words" :: ws), .list (.atom "seeds" :: ss),
+      .list (.atom "a" :: dc), .list (.atom "b" :: dc), .list (.atom "c" :: dc)]
+    pure (model, legal && Sexp.beq model implOut)
   | _ => none
 
 /-- `(exp (seeds (p r seed)…) (digests …))`: the generator seed observed inside job (p, r) must be
@@ -238,7 +378,96 @@ def predictExpSeeds (seedsS : Sexp) : Option (Sexp × Bool) := do
   let triples ← items.mapM fun t => match t with
     | .list [p, r, s] => do let p ← nat? p; let r ← nat? r; let s ← nat? s; pure (p, r, s)
     | _ => none
-  let model := Sexp.list (.atom "seeds" :: triples.map fun (p, r, _) => .list [ofNat p, ofNat r, ofNat (jobSeed (r, p))])
+  let model := Sexp.list (.atom "seeds" :: triples.map fun (p, r, _) =>
+    match jobGenerator (fun run => (⟨0, run⟩ : GenId)) setupKeep ⟨99, 0⟩ (jobSeed (r, p)) with
+    | .ok g => .list [ofNat p, ofNat r, ofNat g.seed]
+    | .error _ => .list [ofNat p, ofNat r, .atom "err"])
   pure (model, Sexp.beq model seedsS)
+
+/-- Children, property part only: deriving twice from equally seeded parents gives the same child
+streams (`a` = `b`; the harness appends a marker to `a` when the parents' positions differ afterwards).
+That the child seed is exactly the parent's next word is the model's shape (K), not the property. -/
+def childrenDeterministic (implOut : Sexp) : Bool :=
+  match implOut with
+  | .list [.atom "children", _, _, _, .list (.atom "a" :: da), .list (.atom "b" :: db), _] =>
+    Sexp.beq (.list da) (.list db)
+  | _ => false
+
+def draw? : Sexp → Option Draw
+  | .atom "u64" => some .u64
+  | .atom "u32" => some .u32
+  | .list [.atom "fill", n] => (nat? n).map .fill
+  | .list [.atom "try", n] => (nat? n).map .tryFill
+  | _ => none
+
+/-- `(stream backend seed (path i…) (ops o…))` ↦ `(stream (impl (seeds …) (kept b) (out …)) (again …) (ref (seeds …) (out …)))`.
+`impl`/`again`: two independently constructed `Random::with_rng::<B>(seed)` (or `Random::new`), walked
+down `path` through `iter_children`, then the draw script; `seeds`: what `config().seed` reports on the
+way down (the witness — how a child's seed is derived from the parent's draw is not demanded);
+`kept`: every generator on the way reports the backend `B`; `ref`: the draw script on the bare backend
+seeded by rand's own `seed_from_u64` with the last witness seed. For the transparent backend `ctr` the
+model computes the output itself.
+Returns (model output, agree, deterministic). -/
+def predictStream (input implOut : Sexp) : Option (Sexp × Bool × Bool) :=
+  match input, implOut with
+  | .list [.atom "stream", .atom backend, seedS, pathS, opsS],
+    .list [.atom "stream", impl, again, .list [.atom "ref", refSeeds, refOut]] => do
+    let seed ← nat? seedS
+    let path ← (← tagged? "path" pathS).mapM nat?
+    let ops ← (← tagged? "ops" opsS).mapM draw?
+    -- the seeds the generators on the way down report (witness); the descendant must behave as the
+    -- pristine generator of the backend with the LAST of them (the root's seed for the empty path)
+    let witness ← match impl with
+      | .list (.atom "impl" :: .list (.atom "seeds" :: ws) :: _) => ws.mapM nat?
+      | _ => none
+    let legal := witness.length == path.length
+    let (mSeeds, mOut) :=
+      if backend == "ctr" then
+        (Sexp.list (.atom "seeds" :: witness.map ofNat),
+         Sexp.list (.atom "out" :: ((Random.withRng ctr (witness.getLastD seed)).run ops).map ofNats))
+      else (refSeeds, refOut)
+    let want := Sexp.list [.atom "impl", mSeeds, .list [.atom "kept", .atom "t"], mOut]
+    let wantAgain := Sexp.list [.atom "again", mSeeds, .list [.atom "kept", .atom "t"], mOut]
+    let model := Sexp.list [.atom "stream", want, wantAgain, .list [.atom "ref", mSeeds, mOut]]
+    let det := match impl, again with
+      | .list (.atom "impl" :: xs), .list (.atom "again" :: ys) => Sexp.beq (.list xs) (.list ys)
+      | _, _ => false
+    pure (model, legal && Sexp.beq model implOut, det)
+  | _, _ => none
+
+/-- `(seedmap s)` ↦ `(seedmap (eff e) (eff2 e2) (same-stream b))`: `e` = first word of
+`Random::with_rng::<Ctr>(s)` = the seed that really reached the backend, `e2` the same for seed `e`,
+`b` = the first 16 words of the generators seeded `s` and `e` coincide. Model: `e = s`.
+The property fails when two DIFFERENT seeds `s ≠ e` give the same stream. -/
+def predictSeedmap (input implOut : Sexp) : Option (Sexp × Bool × Bool) :=
+  match input, implOut with
+  | .list [.atom "seedmap", seedS], .list [.atom "seedmap", .list [.atom "eff", e], .list [.atom "eff2", _], .list [.atom "same-stream", b]] => do
+    let seed ← nat? seedS
+    let e ← nat? e
+    let b ← bool? b
+    let m := (Random.withRng ctr seed).run [.u64]
+    let eff := (m.headD []).headD 0
+    let model := Sexp.list [.atom "seedmap", .list [.atom "eff", ofNat eff], .list [.atom "eff2", ofNat eff], .list [.atom "same-stream", .atom "t"]]
+    pure (model, Sexp.beq model implOut, e == seed || !b)
+  | _, _ => none
+
+/-- `(exp-user name v iters runs pool nprob backend useed)` ↦ `(exp-user (gens (p r backend seed)…) digests)`:
+the generator observed DURING job (p, r) of the real `par_experiment` whose `setup` supplies the
+generator (backend, useed) must be that generator. -/
+def predictExpUser (input gensS : Sexp) : Option (Sexp × Bool) :=
+  match input with
+  | .list [.atom "exp-user", _, _, _, _, _, _, kb, us] => do
+    let kb ← nat? kb
+    let us ← nat? us
+    let items ← tagged? "gens" gensS
+    let rows ← items.mapM fun t => match t with
+      | .list [p, r, _, _] => do let p ← nat? p; let r ← nat? r; pure (p, r)
+      | _ => none
+    let model := Sexp.list (.atom "gens" :: rows.map fun (p, r) =>
+      match jobGenerator (fun run => (⟨0, run⟩ : GenId)) (setupSupply ⟨kb, us⟩) ⟨99, 0⟩ r with
+      | .ok g => .list [ofNat p, ofNat r, ofNat g.backend, ofNat g.seed]
+      | .error _ => .list [ofNat p, ofNat r, .atom "err", .atom "err"])
+    pure (model, Sexp.beq model gensS)
+  | _ => none
 
 end MahfModel.Determinism
